@@ -255,6 +255,38 @@ theorem lookupAll_out (sem : Sem) (frm loc frn as : String) :
 
 theorem dr_unwindDoc : Dr.unwindDoc = .deep := rfl
 theorem dr_unwindIndexed : Dr.unwindIndexed = .deep := rfl
+theorem dr_unwindItem : Dr.unwindItem = .deep := rfl
+
+theorem all_itemAt {p : Id → Bool} (key : String) (i : Nat) (x v : HV) (hx : x.all p = true)
+    (h : itemAt key i x = some v) : v.all p = true := by
+  unfold itemAt at h
+  split at h
+  · next id items hg =>
+    have hl := all_get key x _ hx hg
+    simp only [HV.all, Bool.and_eq_true] at hl
+    cases hi : items[i]? with
+    | none => simp [hi] at h
+    | some kv =>
+      simp [hi] at h
+      subst h
+      have hmem := List.mem_of_getElem? hi
+      clear hi hg
+      induction items with
+      | nil => cases hmem
+      | cons a r ih =>
+        obtain ⟨k, y⟩ := a
+        simp only [allKids, Bool.and_eq_true] at hl
+        cases hmem with
+        | head => exact hl.2.1
+        | tail _ hm => exact ih ⟨hl.1, hl.2.2⟩ hm
+  · cases h
+
+theorem unwoundItem_all {p : Id → Bool} (key : String) (i : Nat) (c item : HV)
+    (hc : c.all p = true) (hi : item.all p = true) : (unwoundItem Dr key i c item).all p = true := by
+  simp only [unwoundItem, dr_unwindItem]
+  cases h : itemAt key i c with
+  | none => simpa [Option.getD] using hi
+  | some v => simpa [Option.getD] using all_itemAt key i c v hc h
 theorem dr_indexPrivate : Dr.indexPrivate = true := rfl
 
 theorem setIndex_win {b : Nat} (idx : Option (List String)) (v : Val) (x : HV) (n : Nat)
@@ -287,13 +319,18 @@ theorem unwindItems_win {b : Nat} (key : String) (idx : Option (List String)) (d
     have hc := deepTmp_win (b := b) doc n hb
     have hm : ∀ q, inR b n q = true → inR b (deepTmp doc n).2 q = true :=
       fun q hq => inR_mono (Nat.le_refl _) hc.1 q hq
-    have hs := setIndex_win (b := b) idx (.int i) ((deepTmp doc n).1.setLocal key x) (deepTmp doc n).2
-      (Nat.le_trans hb hc.1) (all_setLocal key _ x hc.2 (all_mono hm _ hi.1))
+    have hit := unwoundItem_all key i (deepTmp doc n).1 x hc.2 (all_mono hm _ hi.1)
+    have hs := setIndex_win (b := b) idx (.int i)
+      ((deepTmp doc n).1.setLocal key (unwoundItem Dr key i (deepTmp doc n).1 x)) (deepTmp doc n).2
+      (Nat.le_trans hb hc.1) (all_setLocal key _ _ hc.2 hit)
     have hm2 : ∀ q, inR b n q = true →
-        inR b (setIndex idx (.int i) ((deepTmp doc n).1.setLocal key x) (deepTmp doc n).2).2 q = true :=
+        inR b (setIndex idx (.int i)
+          ((deepTmp doc n).1.setLocal key (unwoundItem Dr key i (deepTmp doc n).1 x))
+          (deepTmp doc n).2).2 q = true :=
       fun q hq => inR_mono (Nat.le_refl _) (Nat.le_trans hc.1 hs.1) q hq
     have ih := unwindItems_win key idx doc r (i + 1)
-      (setIndex idx (.int i) ((deepTmp doc n).1.setLocal key x) (deepTmp doc n).2).2
+      (setIndex idx (.int i)
+        ((deepTmp doc n).1.setLocal key (unwoundItem Dr key i (deepTmp doc n).1 x)) (deepTmp doc n).2).2
       (Nat.le_trans hb (Nat.le_trans hc.1 hs.1)) (all_mono hm2 _ hd) (allKids_mono hm2 _ hi.2)
     simp only [allL, Bool.and_eq_true]
     exact ⟨Nat.le_trans (Nat.le_trans hc.1 hs.1) ih.1,
@@ -536,9 +573,11 @@ mutual
       · cases hs
       · split at hs
         · cases hs
-        · cases hs
-          have h1 := unwindAll_win (b := b) key preserve idx w.work w.nextTmp h.hb h.work
-          exact ⟨h.setWork _ _ h1.1 h1.2, ho⟩
+        · split at hs
+          · cases hs
+          · cases hs
+            have h1 := unwindAll_win (b := b) key preserve idx w.work w.nextTmp h.hb h.work
+            exact ⟨h.setWork _ _ h1.1 h1.2, ho⟩
     | .lookup frm loc frn as, b, w, w', h, ho, _, hs => by
       simp only [runStage] at hs
       have s1 := lookupAll_step (b := b) sem frm loc frn as _ w 0 w' h hs
